@@ -9,9 +9,11 @@ Open Scope Z_scope.
 Open Scope string_scope.
 Open Scope list_scope.
 
-(* twelve failing single-document writes inside the guard: a rejected operator without unique
+(* fourteen failing single-document writes inside the guard: a rejected operator without unique
    index; duplicate _id; duplicate unique key on insert_one, update_one, replace_one,
-   find_one_and_update and on the insert of an upsert (all rolled back); then, with a TTL index
+   find_one_and_update and on the insert of an upsert (all rolled back); a replace_one and a
+   find_one_and_replace whose unique check raises OperationFailure (the new image holds an
+   operator document: rolled back as well, since the repair of the library); then, with a TTL index
    and nothing expired (before the expiry date, and again after the purge), a duplicate _id,
    a find_one_and_delete with a bad filter, and (unique index dropped) a rejected operator
    and an update changing _id *)
@@ -29,6 +31,9 @@ Definition ops_inside : list op :=
     OUpdate (VDoc [("u", VInt 7)]) (VDoc [("$set", VDoc [("u", VInt 2)])]) false true;
     OFindAndModify (VDoc [("_id", VInt 2)]) None []
       (FamUpdate (VDoc [("$set", VDoc [("w", VInt 1)])]) false true);
+    OReplace (VDoc [("_id", VInt 1)]) (VDoc [("u", VDoc [("$foo", VInt 1)])]) false;
+    OFindAndModify (VDoc [("_id", VInt 2)]) None []
+      (FamReplace (VDoc [("u", VDoc [("$foo", VInt 1)])]) false false);
     OCreateIndex [("t", VInt 1)] false false (Some (VInt 10)) None None;
     OInsertOne (VDoc [("_id", VInt 2)]);
     OFindAndModify (VInt 1) None [] FamDelete;
@@ -43,7 +48,7 @@ Example C08_history_satisfiable :
   let os := model_obs false empty_coll ops_inside in
   c08_reasons ops_inside os = 0 /\
   List.length (List.filter (fun ob => match ob with (Err _, _, _) => true | _ => false end) os)
-    = 12%nat /\
+    = 14%nat /\
   c08_ok ops_inside os = true.
 Proof. vm_compute. repeat split; reflexivity. Qed.
 
